@@ -70,6 +70,20 @@ Definition replace_inner_exprs (c : comb) (exprs : list operand) : option (list 
       end
   end.
 
+(* ---- is_block_expr (parse/utils.rs:33) on tokens: syn's Expr::Block is
+        outer attributes, an optional label, a brace group ---- *)
+Fixpoint strip_attrs (ts : list tt) : list tt :=
+  match ts with
+  | TP c _ :: TG DBracket _ :: r => if String.eqb c "#" then strip_attrs r else ts
+  | _ => ts
+  end.
+Definition is_block (o : operand) : bool :=
+  match strip_attrs o with
+  | [TG DBrace _] => true
+  | [TP q _; TI _; TP c _; TG DBrace _] => String.eqb q "'" && String.eqb c ":"
+  | _ => false
+  end.
+
 Record branch := mkBranch {
   b_pat : option (operand * string);   (* `let <PatIdent tokens> =` and the bare identifier *)
   b_members : list action
